@@ -74,3 +74,44 @@ pub fn record(rules_file: &str, out: &str, nwords: usize) {
     sum.count("records", w.n);
     sum.print();
 }
+
+/// fragment F1 (ScanX): recorded applications of n-by-n substitutions, deletions, metatheses and insertions over the full inventory,
+/// on words assembled from the rule's own elements, for validation by spec/tv/TV_ScanX.tla (informational)
+pub fn record_f1(rules_file: &str, out: &str, nwords: usize) {
+    let t = tables::load();
+    let seed = env_u64("VERIF_SEED", 1);
+    let f = std::io::BufReader::new(std::fs::File::open(rules_file).expect("rules file"));
+    let mut asts: Vec<Value> = Vec::new();
+    tlc_vectors(f, |x| asts.push(x), |_| {});
+    asts.sort_by_key(|x| x["seed"].as_u64().unwrap_or(0));
+    let mut w = Writer::new(out);
+    let mut sum = Summary::default();
+    let al = v::no_aliases();
+    for a in &asts {
+        let rule = &a["rule"];
+        let text = rules::rule_text(rule, &t);
+        let mut rng = Rng::new(seed.wrapping_mul(2713).wrapping_add(a["seed"].as_u64().unwrap_or(0)));
+        for wt in crate::directed::words(rule, &t, &mut rng, nwords) {
+            // the fragment has no length, stress or tone of its own: plain words
+            let wt: String = wt.chars().filter(|c| !"ːˈˌ".contains(*c) && !c.is_ascii_digit()).collect();
+            let Ok(word) = v::parse_word(&wt, &al) else { continue };
+            if word.syllables.is_empty() { continue; }
+            let (t2, w2) = (text.clone(), word.clone());
+            let rec = crate::util::rec(200_000, false, false, move || {
+                let rs = v::parse_rules(&[RuleGroup::from_rules(vec![t2])])?;
+                let steps = v::apply_structural(&rs, w2.clone())?;
+                Ok::<_, asca::Error>(steps.last().map(|s| s.word.clone()).unwrap_or(w2))
+            });
+            sum.vectors += 1;
+            let (outk, after) = match &rec.result { Ok(Ok(x)) => ("ok", x.clone()), Ok(Err(_)) => ("err", word.clone()), Err(_) => ("panic", word.clone()) };
+            if after != word { sum.nontrivial += 1; }
+            sum.count(outk, 1);
+            w.put(json!({"rule": rule, "w": w_compact(&word, false), "a": w_compact(&after, false), "out": outk}),
+                  json!({"rule": text, "word": v::render_word(&word, &al), "after": v::render_word(&after, &al), "outcome": outk,
+                         "detail": match &rec.result { Ok(Err(e)) => err_key(e), Err(p) => panic_msg(p), _ => String::new() }}));
+        }
+    }
+    sum.agree = sum.vectors;
+    sum.count("records", w.n);
+    sum.print();
+}
